@@ -68,6 +68,27 @@ def explore(ctx):
             ops = "".join(rng.choice("GGGGPPR") for _ in range(L))
             lines.append("remote r%d groups=%s ops=%s" % (k, enc_groups(gs), ops))
             k += 1
+        # the caller's own slices: one slice used for two groups, a second construction from the same slices, and the caller
+        # writing into its slices after construction - the remote must behave as constructed from the VALUES it was given
+        for _ in range({"quick": 300, "thorough": 4000, "search": 800}[tier]):
+            gs = rand_groups(rng) or [["a"]]
+            if rng.chance(1, 2):
+                gs[rng.below(len(gs))] = rng.choice([["", "A:1", "b:2"], [" ", "x", "", "Y"], ["a", "", "", "B", "c"]])
+            extra = []
+            how = rng.below(4)
+            if how == 0 and len(gs) <= 8:
+                i = rng.below(len(gs))
+                gs.append(list(gs[i]))
+                extra.append("alias=%d:%d" % (i, len(gs) - 1))
+            elif how == 1:
+                extra.append("twice=1")
+            elif how == 2:
+                extra.append("scribble=1")
+            else:
+                extra += ["twice=1", "scribble=1"]
+            ops = "".join(rng.choice("GGGGGPRR") for _ in range(5 + rng.below(30)))
+            lines.append("remote r%d groups=%s ops=%s %s" % (k, enc_groups(gs), ops, " ".join(extra)))
+            k += 1
         for _ in range({"quick": 30, "thorough": 400, "search": 100}[tier]):
             gs = rand_groups(rng)
             lines.append("conc c%d groups=%s cycles=%d workers=%d" % (k, enc_groups(gs), 1 + rng.below(4), 2 + rng.below(7)))
